@@ -431,12 +431,15 @@ def opSimilarity (j : Json) : Except String Json := do
 def opView (j : Json) : Except String Json := do
   let n ← getNat j "n"
   let s0 := getIntD j "s0" 1
-  match getOptNat j "d" with
-  | some d =>
+  match getOptNat j "len", getOptNat j "d" with
+  | some len, some d =>
+    let v : View3 := { base := 0, n := n, len := len, d := d, s0 := s0, s1 := getIntD j "s1" 1, s2 := getIntD j "s2" 1 }
+    return Json.mkObj [("c", Json.bool v.cContig), ("f", Json.bool false), ("keeps", Json.bool v.cContig)]
+  | _, some d =>
     let v : View2 := { base := 0, n := n, d := d, s0 := s0, s1 := getIntD j "s1" 1 }
     return Json.mkObj [("c", Json.bool v.cContig), ("f", Json.bool v.fContig),
       ("keeps", Json.bool (v.flag .c))]
-  | none =>
+  | _, none =>
     let v : View1 := { base := 0, n := n, stride := s0 }
     return Json.mkObj [("c", Json.bool (v.flag .c)), ("f", Json.bool (v.flag .f)), ("keeps", Json.bool (v.flag .c))]
 
